@@ -138,6 +138,26 @@ func (e *Engine) evalRule(r *StructRule) []*Obligation {
 		}
 	case "goroutine_roots":
 		return e.ruleGoRoots(r)
+	case "go_ctx":
+		// go_ctx Func from=withcancel|param : every goroutine Func starts (and every task it builds with
+		// a context argument) gets a context derived from the one Func itself cancels on exit
+		// (from=withcancel: the result of its context.WithCancel/WithTimeout call, whose cancel it defers)
+		// or from its own context parameter (from=param).
+		var out []*Obligation
+		from := "withcancel"
+		if o := ruleOpt(r, "from"); len(o) > 0 {
+			from = o[0]
+		}
+		for _, fnk := range pos {
+			fn := e.funcs[r.Pkg+"::"+fnk]
+			if fn == nil {
+				out = append(out, e.structObl(r, fnk, false, "function not found"))
+				continue
+			}
+			ok, msg := goCtxFlow(fn, from)
+			out = append(out, e.structObl(r, fnk, ok, msg))
+		}
+		return out
 	case "closure_immutable":
 		var out []*Obligation
 		for _, fnk := range pos {
@@ -580,4 +600,150 @@ func closureImmutable(fn *ssa.Function) (bool, string) {
 		}
 	}
 	return true, fmt.Sprintf("%d captured variables, none assigned by the literal or after it is made", len(fn.FreeVars))
+}
+
+func isContextType(t types.Type) bool {
+	n := namedOf(t)
+	return n != nil && n.Obj().Pkg() != nil && n.Obj().Pkg().Path() == "context" && n.Obj().Name() == "Context"
+}
+
+// ctxOrigin classifies where a context value comes from: "withcancel" (result of context.WithCancel /
+// WithTimeout / WithDeadline called in this function), "param" (a parameter), "" (something else).
+func ctxOrigin(v ssa.Value, seen map[ssa.Value]bool) map[string]bool {
+	out := map[string]bool{}
+	if seen[v] {
+		return out
+	}
+	seen[v] = true
+	switch x := v.(type) {
+	case *ssa.Parameter:
+		out["param"] = true
+	case *ssa.Extract:
+		if c, ok := x.Tuple.(*ssa.Call); ok {
+			if f := c.Call.StaticCallee(); f != nil && f.Pkg != nil && f.Pkg.Pkg.Path() == "context" &&
+				(f.Name() == "WithCancel" || f.Name() == "WithTimeout" || f.Name() == "WithDeadline") {
+				out["withcancel"] = true
+				return out
+			}
+		}
+		out["other"] = true
+	case *ssa.Call:
+		// wrappers that keep cancellation: core.WithContext(ctx, ..), context.WithValue(ctx, ..)
+		if f := x.Call.StaticCallee(); f != nil && (f.Name() == "WithContext" || f.Name() == "WithValue") && len(x.Call.Args) > 0 {
+			for k := range ctxOrigin(x.Call.Args[0], seen) {
+				out[k] = true
+			}
+			return out
+		}
+		out["other"] = true
+	case *ssa.Phi:
+		for _, e := range x.Edges {
+			for k := range ctxOrigin(e, seen) {
+				out[k] = true
+			}
+		}
+	case *ssa.UnOp:
+		if x.Op == token.MUL {
+			// load from a local cell: look at what is stored there
+			if a, ok := x.X.(*ssa.Alloc); ok {
+				for _, r := range *a.Referrers() {
+					if st, ok := r.(*ssa.Store); ok && st.Addr == a {
+						for k := range ctxOrigin(st.Val, seen) {
+							out[k] = true
+						}
+					}
+				}
+				return out
+			}
+		}
+		out["other"] = true
+	case *ssa.MakeInterface, *ssa.ChangeInterface:
+		ops := x.(ssa.Instruction).Operands(nil)
+		for k := range ctxOrigin(*ops[0], seen) {
+			out[k] = true
+		}
+	default:
+		out["other"] = true
+	}
+	return out
+}
+
+func goCtxFlow(fn *ssa.Function, from string) (bool, string) {
+	n := 0
+	check := func(args []ssa.Value, what string) (bool, string) {
+		for _, a := range args {
+			if !isContextType(a.Type()) {
+				continue
+			}
+			n++
+			or := ctxOrigin(a, map[ssa.Value]bool{})
+			for k := range or {
+				bad := false
+				switch from {
+				case "withcancel":
+					// a parameter's context that was re-derived is fine only if every path goes through WithCancel
+					bad = k != "withcancel"
+				case "param":
+					bad = k != "param" && k != "withcancel"
+				}
+				if bad {
+					return false, what + " is given a context that is not derived from the one this function controls (origin: " + k + ")"
+				}
+			}
+		}
+		return true, ""
+	}
+	for _, b := range fn.Blocks {
+		for _, in := range b.Instrs {
+			switch x := in.(type) {
+			case *ssa.Go:
+				if ok, msg := check(x.Call.Args, "the goroutine started at "+x.Call.Value.Name()); !ok {
+					return false, msg
+				}
+			case *ssa.Call:
+				// tasks built for a worker pool: functions of this package named task
+				if f := x.Call.StaticCallee(); f != nil && f.Pkg == fn.Pkg && f.Name() == "task" {
+					if ok, msg := check(x.Call.Args, "the worker-pool task"); !ok {
+						return false, msg
+					}
+				}
+			}
+		}
+	}
+	if from == "withcancel" {
+		// the cancel function must be called by a deferred function
+		found := false
+		for _, b := range fn.Blocks {
+			for _, in := range b.Instrs {
+				if d, ok := in.(*ssa.Defer); ok {
+					var callee *ssa.Function
+					if mc, ok := d.Call.Value.(*ssa.MakeClosure); ok {
+						callee = mc.Fn.(*ssa.Function)
+					}
+					if callee != nil {
+						for _, b2 := range callee.Blocks {
+							for _, in2 := range b2.Instrs {
+								if c, ok := in2.(*ssa.Call); ok {
+									if n2 := namedOf(c.Call.Value.Type()); n2 != nil && n2.Obj().Name() == "CancelFunc" {
+										found = true
+									}
+									if ld, ok := c.Call.Value.(*ssa.UnOp); ok {
+										if n2 := namedOf(ld.Type()); n2 != nil && n2.Obj().Name() == "CancelFunc" {
+											found = true
+										}
+									}
+								}
+							}
+						}
+					} else if n2 := namedOf(d.Call.Value.Type()); n2 != nil && n2.Obj().Name() == "CancelFunc" {
+						found = true
+					}
+				}
+			}
+		}
+		if !found {
+			return false, "no deferred call of the cancel function"
+		}
+	}
+	return true, fmt.Sprintf("%d context arguments of started goroutines/tasks, all derived from the context this function controls", n)
 }
